@@ -274,7 +274,7 @@ class MultiFit(FitBase):
                 _upper = _data_indices[_j + 1]
                 _combined_property[_lower:_upper, _lower:_upper] = _single_fit_property
             for _error_dict in self._shared_error_dicts.values():
-                if _error_dict["axis"] != axis_name:
+                if _error_dict["axis"] != axis_name or not _error_dict["enabled"]:
                     continue
                 _error = _error_dict["err"]
                 for _j, _fit_index_j in enumerate(_error.fit_indices):
@@ -879,9 +879,31 @@ class MultiFit(FitBase):
         if _keys:
             warnings.warn("Could not assign all parameter latex names to single fits. Leftover: {}".format(_keys))
 
-    def disable_error(self, err_id):
+    def _set_error_enabled(self, err_id, enabled):
+        _found = False
         for _fit in self._fits:
-            _fit.disable_error(err_id=err_id)
+            try:
+                if enabled:
+                    _fit.enable_error(err_id=err_id)
+                else:
+                    _fit.disable_error(err_id=err_id)
+                _found = True
+            except ValueError:
+                pass  # this fit does not have the error
+        if not _found:
+            raise ValueError("No error with name '{}'!".format(err_id))
+        if err_id in self._shared_error_dicts:
+            self._shared_error_dicts[err_id]["enabled"] = enabled
+        if self._shared_error_nodes_initialized:
+            for _name in ("x_cov_mat", "y_cov_mat"):
+                self._nexus.get(_name).mark_for_update()
+            self._on_error_change()
+
+    def disable_error(self, err_id):
+        self._set_error_enabled(err_id, False)
+
+    def enable_error(self, err_id):
+        self._set_error_enabled(err_id, True)
 
     def fix_parameter(self, name, value=None):
         self._fitter.fix_parameter(name=name, value=value)
